@@ -139,7 +139,7 @@ def _dec_ret(r):
     return r
 
 
-def native_run(pkg, calls, timeout_ms=10000, keep=None):
+def native_run(pkg, calls, timeout_ms=10000, keep=None, race=False):
     """run harness functions natively (go test with the harness overlay) against /repo's working tree.
     calls: [(func, [args])] ; returns list of dicts {'ret': [...]} | {'panic': msg} | {'timeout': True}"""
     os.makedirs(CACHE, exist_ok=True)
@@ -160,8 +160,10 @@ def native_run(pkg, calls, timeout_ms=10000, keep=None):
         if os.path.exists(req + '.out'):
             os.remove(req + '.out')
         env = dict(GOENV, VERIF_REPLAY=req)
-        r = subprocess.run(['go', 'test', '-tags', 'verif', '-vet=off', '-count=1', '-overlay', ovf, '-run', '^TestVerifReplay$',
+        r = subprocess.run(['go', 'test'] + (['-race'] if race else []) + ['-tags', 'verif', '-vet=off', '-count=1', '-overlay', ovf, '-run', '^TestVerifReplay$',
                             '-timeout', '20m', './' + pkg], cwd=REPO, env=env, capture_output=True, text=True)
+        if race and ('DATA RACE' in r.stdout + r.stderr or 'concurrent map' in r.stdout + r.stderr):
+            return [{'race': True}]
         if not os.path.exists(req + '.out'):
             raise RuntimeError('native run failed:\n' + r.stdout[-3000:] + r.stderr[-3000:])
         out = json.load(open(req + '.out'))
